@@ -511,3 +511,39 @@ verus_unit(
                               text="ensures: impossible symbol / missing remainders reported with the coder untouched; else refill iff r < p<<(sb-wb-P), quantile = cum + r%p appended as one P-bit chunk to the compressed side, r' = r/p, head invariants kept [all P <= Word bits]"),
     },
 )
+
+# ---------------- Verus unit: ContiguousCategoricalEntropyModel queries (contiguous.rs)
+_CC_IMPL = "impl<Probability, Cdf, const PRECISION: usize>\n    ContiguousCategoricalEntropyModel<Probability, Cdf, PRECISION>\nwhere\n    Probability: BitArray,\n    Cdf: AsRef<[Probability]>,"
+_CC_ENC = "EncoderModel<PRECISION>\n    for ContiguousCategoricalEntropyModel<Probability, Cdf, PRECISION>"
+_CC_DEC = "DecoderModel<PRECISION>\n    for ContiguousCategoricalEntropyModel<Probability, Cdf, PRECISION>"
+_BS_HEAD = r"let monotonic_part_of_cdf = unsafe \{ cdf\.get_unchecked\(\.\.cdf\.len\(\) - 1\) \};\s*let Err\(next_symbol\) = monotonic_part_of_cdf\.binary_search_by\(\|&x\| \{\s*if x "
+_BS_TAIL = r" quantile \{\s*core::cmp::Ordering::Less\s*\} else \{\s*core::cmp::Ordering::Greater\s*\}\s*\}\) else \{\s*unsafe \{ core::hint::unreachable_unchecked\(\) \}\s*\};"
+_BS_RULE_LT = (_BS_HEAD + "<" + _BS_TAIL, "let next_symbol = partition_point_lt(cdf, cdf.len() - 1, quantile);", None)
+_BS_RULE = (r"let monotonic_part_of_cdf = unsafe \{ cdf\.get_unchecked\(\.\.cdf\.len\(\) - 1\) \};\s*let Err\(next_symbol\) = monotonic_part_of_cdf\.binary_search_by\(\|&x\| \{\s*if x (<=) quantile \{\s*core::cmp::Ordering::Less\s*\} else \{\s*core::cmp::Ordering::Greater\s*\}\s*\}\) else \{\s*unsafe \{ core::hint::unreachable_unchecked\(\) \}\s*\};",
+            "let next_symbol = partition_point_le(cdf, cdf.len() - 1, quantile);", None)
+verus_unit(
+    name="contiguous", template="contiguous_unit.rs.tmpl",
+    widths=["u8_u16", "u16_u32", "u32_u64"],   # Probability = u8, u16, u32
+    slots={
+        "SUPPORT_SIZE": dict(file="src/stream/model/categorical/contiguous.rs", anchor=_CC_IMPL, fn="support_size", extra=[
+            (r"self\.cdf\.as_ref\(\)\.len\(\)", "self.cdf.len()", 1)]),
+        "LCP": dict(file="src/stream/model/categorical/contiguous.rs", anchor=_CC_ENC, fn="left_cumulative_and_probability", extra=[
+            (r"\*symbol\.borrow\(\)", "symbol", 1),
+            (r"self\.support_size\(\)", "support_size(self)", 1),
+            (r"self\.cdf\.as_ref\(\)", "&self.cdf", 1),
+            (r"\*cdf\.get_unchecked\(([^()]*)\)", r"cdf[\1]", 2),
+        ]),
+        "QUANTILE": dict(file="src/stream/model/categorical/contiguous.rs", anchor=_CC_DEC, fn="quantile_function", extra=[
+            (r"self\.cdf\.as_ref\(\)", "&self.cdf", 1),
+            # contract stub for std's binary_search_by (R15): the comparator's operator selects the stub
+            _BS_RULE,
+            _BS_RULE_LT,
+            (r"\*cdf\.get_unchecked\(([^()]*)\)", r"cdf[\1]", 2),
+        ]),
+    },
+    obligations={
+        "support_size": dict(own=["C03"], dep=["C09", "C20"], text="ensures: cdf.len() - 1"),
+        "left_cumulative_and_probability": dict(own=["C03", "C09", "C20"], dep=["C05"], text="ensures: None iff symbol >= support size; else the spec entry; get_unchecked in bounds; probability nonzero [any table size, all P]"),
+        "quantile_function": dict(own=["C03", "C10", "C20"], dep=["C05"], text="ensures: entry(symbol) == (cum, prob) and cum <= q < cum + prob; indices in bounds; the unreachable_unchecked branch is unreachable under the binary_search contract [any table size, all P]"),
+    },
+)
